@@ -132,7 +132,7 @@ _gen_u = gen
 def gen(rng, n, tier):  # noqa: F811
     out = _gen_u(rng, n, tier)
     for i in range(n):
-        c = M.gen_met(rng, tier=tier, min_steps=2)
+        c = MC.gen_any(rng, tier=tier, min_steps=2)
         out.append(dict(kind='met-sweep-' + c['fmt'], content=c, write=False, sweep=True))
     return out
 
